@@ -14,6 +14,7 @@ def check(ctx):
     scaling.step_continuity(ctx, 'C19-R6')
     scaling.given_parameters_honoured(ctx, 'C19-R7')
     scaling.routine_defaults_and_dispatch(ctx, 'C19-R8')
+    scaling.forward_and_backward_sets_distinct(ctx, 'C19-R11')
     ctx.undecided += ['step scaling with more than 5 step edges (the property quantifies over 0..4; R6 instantiates 0..5)',
                       'that min-max scaling lands in [0, 1] numerically',
                       'floating-point round-trip error of undo(do(x))']
